@@ -158,7 +158,11 @@ def solve(assertions, stats=None, label=None, timeout_ms=QUERY_TIMEOUT_MS, want_
             return "unsat", None
         raise Inconclusive(f"z3 unknown, cvc5 {r2} for {label}; no model available")
     if r == "sat":
-        return "sat", (s.model() if want_model else None)
+        m = s.model()
+        # model validation: a QF_BV solver handed a non-bit-vector term can answer nonsense
+        if not z3.is_true(m.eval(goal, model_completion=True)):
+            raise Inconclusive(f"solver model does not satisfy the query {label} (non-QF_BV term in the encoding?)")
+        return "sat", (m if want_model else None)
     return "unsat", None
 
 
